@@ -62,6 +62,7 @@ type PathResult struct {
 	Stubs     map[string]bool
 	Steps     int
 	KnownHit  []string
+	Recovered []string
 }
 
 type Exec struct {
@@ -711,6 +712,8 @@ func (e *Exec) global(g *ssa.Global) *Obj {
 		v = &ErrV{Root: name, Msg: StrLit(name)}
 	} else if tk == "error" {
 		v = IfaceV{V: &ErrV{Root: name, Msg: StrLit(name)}}
+	} else if _, isMap := t.Underlying().(*types.Map); isMap && (strings.HasSuffix(g.Name(), "_name") || strings.HasSuffix(g.Name(), "_value")) {
+		v = &ModelObj{Kind: "enummap", Name: g.Name()}
 	} else if st, ok := t.Underlying().(*types.Struct); ok && st.NumFields() == 0 {
 		v = e.zero(t)
 	} else {
@@ -1670,6 +1673,7 @@ func (e *Exec) builtin(name string, args []Value, argTypes []types.Type) []Value
 			f := e.frames[i]
 			if f.running && f.panicV != nil {
 				v := f.panicV.Val
+				e.res.Recovered = append(e.res.Recovered, f.panicV.Str)
 				f.panicV = nil
 				if iv, ok := v.(IfaceV); ok {
 					return []Value{iv}
